@@ -38,6 +38,7 @@ def space(tier):
             spaces.ConfigDocSpace(spaces.ProductSpace("B(mli,4)", spaces.SIGMA_MLI, 4), ["default", "all"]),
             spaces.ConfigDocSpace(spaces.inline_wide_space(3, (0,))[0], ["default", "all"]),
             spaces.ConfigDocSpace(spaces.mix_space(tier), ["default", "all"]),
+            spaces.ConfigDocSpace(spaces.para_space(tier), ["default", "all"]),
         ]
     else:
         parts = [
@@ -49,6 +50,7 @@ def space(tier):
             spaces.ConfigDocSpace(spaces.ProductSpace("B(mli,3)", spaces.SIGMA_MLI, 3), ["default", "all"]),
             spaces.ConfigDocSpace(spaces.inline_wide_space(2, (0,))[0], ["default", "all"]),
             spaces.ConfigDocSpace(spaces.mix_space(tier), ["default", "all"]),
+            spaces.ConfigDocSpace(spaces.para_space(tier), ["default", "all"]),
             spaces.ConfigDocSpace(spaces.ProductSpace("B(ol5,6)", SIGMA_OL5, 6, minlen=4), ["default"]),
         ]
     return spaces.UnionSpace(f"scan-{tier}", parts)
